@@ -1,5 +1,13 @@
 # id -> (technique, level_claimed.text, design_ref)
 CLAIMED = {
+    "C10": (
+        "linear-bounds proofs for every drawn index (facts 0 <= Intn(n) <= n-1, element ranges of Perm and of slices filled with draws, propagated through re-slices and phis), draw-range exactness by linear-form equality (container length, window width, Fisher-Yates partner), value-provenance rules for residue stores, who-may-call table for random sources, call-graph reachability of RNG from goroutines, map-range classifier",
+        "Decides statically the support, frame and replay clauses of C10 for the ten randomised operations (BuildBootstrap, RandSubAlign, Recombine, Swap, ShuffleSites, SimulateRogue, Mutate, AddGaps, ShuffleSequences, sampleSeqBag) and every alignment and seed: every row, row-list and alphabet-table index computed from a draw is within bounds on every path "
+        "(lower bounds of indices partly computed from floating-point rates are not decided); each of the 22 draw sites has exactly the admissible range - rand.Intn(X)/rand.Perm(X) values index containers of length X, a drawn window/segment start r with width w satisfies (X-1)+w = length (RandSubAlign, Recombine), Fisher-Yates steps use partner X-1 "
+        "(so the last column, offset, row or letter is reachable and nothing outside is); residue stores write a byte of the same column of a row (ShuffleSites, Swap, Recombine), of the same row (SimulateRogue), the GAP constant (AddGaps) or a letter of the own alphabet's table under the cell != GAP/POINT/OTHER guard (Mutate), ShuffleSequences only exchanges row-list entries; "
+        "BuildBootstrap sizes index list, rows and draw loop by n = int(frac*L) and resets frac exactly when frac<=0 or frac>1; rand.Seed is called once with --seed, no other random source exists, no draw is reachable from a goroutine, no draw depends on map order (keys sorted with a total order). "
+        "NOT decided: that outcomes are permutations / multiset-preserving, distributions, counts derived from floating-point rates, distinctness of sampled rows beyond Perm's contract.",
+        "DESIGN.md §3 C10"),
     "C03": (
         "sparse conditional constant propagation over go/ssa in the end-of-input steady state (interprocedural summaries, abstract field contents, abstract loop iteration until no back edge is executable); the Go compiler's prove pass as bounds oracle (check_bce residual) combined with linear-bounds proofs and a justified table; taint rule from strconv.ParseInt to allocation sizes with positive/negative controls; exact-domain analysis of the partition range checks",
         "Decides statically the termination and no-panic clauses of C03 for the FASTA, Phylip, Nexus, Clustal, Stockholm and partition lexers/parsers, for every byte string: (1) each of the 6 lexers returns its EOF token once ReadRune fails, and every loop that consumes input (41 on this tree) is left within at most 5 abstract iterations after the input is exhausted "
